@@ -7,6 +7,10 @@ Real cpl.totalistic_rule / cpl.TotalisticRule against Model/Totalistic.v on
   * the class with random (c, t), one object reused over neighbourhoods of different sizes (class_sequence), and the
     class driven by cpl.evolve / cpl.evolve2d (r = 1, 2; Moore and von Neumann) against the plain-engine models
     (Model/Evolve1D.v, Model/Evolve2D.v) with the totalistic model as the rule.
+  * onehot/*: rule = k**m (and k**m - 1, k**m + 1, 2*k**m) against neighbourhoods whose sum is exactly m, m-1, m+1, for
+    every k in 2..36 and every digit position of the 3-cell window, every position below 2**64, and samples of the
+    larger shapes;  huge/*: 1D windows of 478..5000 cells with rule numbers of thousands of digits (k = 10 at and
+    above 10**4300, where CPython's int->str limit lies).
 ValueError is compared as a class (named by the property)."""
 import os
 import numpy as np
@@ -24,6 +28,7 @@ NONTRIVIAL_RULE = ('k in {2,3,4,5,10,16,36} x shapes {1D 1/2/3/5/7/9, Moore 3x3/
                    'class calls with random (c, t); class_sequence: one TotalisticRule object on 2-5 neighbourhoods of '
                    'different sizes/forms, rule number below / between / above the bounds of the smallest and largest '
                    'size, sizes ascending / descending / random; evolve / evolve2d with TotalisticRule as apply_rule; '
+                   'onehot: rule k**m vs sum m-1/m/m+1 for all k and digit positions; huge: windows of 478..5000 cells; '
                    'non-trivial = every answer is a digit or ValueError on a well-formed input (2<=k<=36, contents in '
                    '0..k-1); distinct = distinct case dicts')
 EXHAUSTIVE = {'quick': False, 'thorough': False}
@@ -51,6 +56,18 @@ SIGNED = ['int8', 'int16', 'int32', 'int64']
 UNSIGNED = ['uint8', 'uint16', 'uint32', 'uint64']
 DTYPES = SIGNED + UNSIGNED          # 'bool' is added where k = 2
 HEAVY = 30                           # shapes with more cells than this only for k <= 10 (Coq cost ~ digits^3)
+
+
+def _store_rule(rule):
+    """rule numbers above ~4000 decimal digits are kept in the case dict as a hex string: CPython refuses to
+    print such an int in decimal (json.dump of a replay), and that limit must stay at its default here"""
+    rule = int(rule)
+    return rule if rule < 1 << 13000 else hex(rule)
+
+
+def _R(c):
+    r = c['rule']
+    return int(r, 16) if isinstance(r, str) else r
 
 
 def _dtypes(k):
@@ -90,7 +107,7 @@ def _item(rng, shape, dtype, cells):
 
 def _case(rng, kind, shape, dtype, cells, k, rule, cls, ktype='int'):
     d = _item(rng, shape, dtype, cells)
-    d.update({'kind': kind, 'op': 'one', 'k': int(k), 'rule': int(rule), 'cls': bool(cls), 'ktype': ktype})
+    d.update({'kind': kind, 'op': 'one', 'k': int(k), 'rule': _store_rule(rule), 'cls': bool(cls), 'ktype': ktype})
     return d
 
 
@@ -211,6 +228,114 @@ def _evolutions(rng, count):
                    'nbhd': nb, 'dtype': dtype, 'init': init, 'T': T}
 
 
+def _cells_with_sum(rng, shape, k, s):
+    """cells in 0..k-1 of the given shape whose UNMASKED sum is exactly s (masked corners: arbitrary non-zero)"""
+    kind, p = shape
+    n = _size(shape)
+    if kind == 'vn':
+        free = [i * (2 * p + 1) + j for i in range(2 * p + 1) for j in range(2 * p + 1) if abs(i - p) + abs(j - p) <= p]
+    else:
+        free = list(range(n))
+    assert 0 <= s <= len(free) * (k - 1)
+    cells = [rng.randint(1, k - 1)] * n if kind == 'vn' else [0] * n
+    for i in free:
+        cells[i] = 0
+    # random split of s over the free positions
+    order = free[:]
+    rng.shuffle(order)
+    left = s
+    for idx, i in enumerate(order):
+        rest_cap = (len(order) - idx - 1) * (k - 1)
+        lo = max(0, left - rest_cap)
+        hi = min(k - 1, left)
+        v = rng.randint(lo, hi)
+        cells[i] = v
+        left -= v
+    assert left == 0
+    return cells
+
+
+def _reach(shape, k):
+    """largest unmasked sum of the shape"""
+    kind, p = shape
+    return (2 * p * (p + 1) + 1 if kind == 'vn' else _size(shape)) * (k - 1)
+
+
+ONEHOT_SHAPES = [('1d', 5), ('1d', 9), ('moore', 1), ('vn', 1), ('moore', 2), ('vn', 2)]
+
+
+def _onehots(rng, tier):
+    """onehot/...: rule = k**m (a single digit 1 at position m) against neighbourhoods whose sum is exactly m
+    (answer 1), m-1 and m+1 (answer 0); and the neighbours k**m - 1, k**m + 1, 2*k**m of that rule number with sum m.
+    Every k in 2..36, every position m of the 3-cell window, and a sample of positions of the larger shapes."""
+    def one(k, shape, m, tag):
+        reach = _reach(shape, k)
+        out = []
+        for s in (m - 1, m, m + 1):
+            if 0 <= s <= reach:
+                out.append((k ** m, s, 'pow/sum%+d' % (s - m)))
+        variants = [(k ** m - 1, 'pow-1'), (k ** m + 1, 'pow+1'), (2 * k ** m, '2pow')]
+        if tier == 'quick':
+            variants = [rng.choice(variants)]
+        for rule, nm in variants:
+            if m <= reach and rule < k ** (_size(shape) * (k - 1) + 1):
+                out.append((rule, m, nm))
+        for rule, s, nm in out:
+            yield _case(rng, 'onehot/%s/%s' % (tag, nm), shape, rng.choice(_dtypes(k)), _cells_with_sum(rng, shape, k, s),
+                        k, rule, rng.random() < 0.3)
+    for k in range(2, 37):
+        # complete: every digit position of the 3-cell window
+        for m in range(0, 3 * (k - 1) + 1):
+            for c in one(k, ('1d', 3), m, 'L3'):
+                yield c
+        # every position below 2**64 that a bigger window can reach (where float shortcuts could be tried)
+        m = 3 * (k - 1) + 1
+        while k ** m < 2 ** 64:
+            shape = rng.choice([s for s in ONEHOT_SHAPES + [('1d', 65), ('moore', 4)] if _reach(s, k) > m])
+            for c in one(k, shape, m, 'small'):
+                yield c
+            m += 1
+        # a sample of positions of the larger shapes, with the two ends
+        per = 2 if tier == 'quick' else 12
+        for shape in ONEHOT_SHAPES:
+            if tier == 'quick' and k > 10 and _size(shape) > 9:
+                continue            # 25 cells x (k-1) digits: Coq cost
+            top = _size(shape) * (k - 1)
+            reach = _reach(shape, k)
+            ms = {0, reach, top} | {rng.randint(0, reach) for _ in range(per)}
+            for m in sorted(ms):
+                for c in one(k, shape, m, shape[0]):
+                    yield c
+
+
+def _huge(rng, tier):
+    """huge/...: very long 1D windows, rule numbers of thousands of digits (stored as hex strings)"""
+    plan = [(10, 478, 'e4300'), (10, 500, 'top')]
+    if tier != 'quick':
+        plan += [(10, 478, 'e4300-1'), (10, 478, 'max'), (10, 478, 'min_out'), (10, 500, 'top'), (10, 1200, 'e4300'),
+                 (10, 1200, 'top'), (2, 1200, 'top'), (2, 5000, 'top'), (8, 700, 'top'), (16, 300, 'top'),
+                 (36, 150, 'top'), (3, 1200, 'top')]
+    else:
+        plan += [(2, 1200, 'top'), (16, 300, 'top')]
+    for k, L, what in plan:
+        W = L * (k - 1) + 1
+        if what == 'e4300':
+            rule = 10 ** 4300
+        elif what == 'e4300-1':
+            rule = 10 ** 4300 - 1
+        elif what == 'max':
+            rule = k ** W - 1
+        elif what == 'min_out':
+            rule = k ** W
+        else:
+            rule = rng.randrange(k ** (W - 1), k ** W)
+        cells = [rng.randint(0, k - 1) for _ in range(L)]
+        if what == 'e4300':          # aim at the single 1 (sum 4300) when the window can reach it, else near it
+            cells = _cells_with_sum(rng, ('1d', L), k, min(4300, L * (k - 1)))
+        yield _case(rng, 'huge/k%d/L%d/%s' % (k, L, what), ('1d', L), rng.choice(_dtypes(k)), cells, k, rule,
+                    rng.random() < 0.5)
+
+
 def generate(rng, tier):
     reps = 1 if tier == 'quick' else 5
     # complete small domain: k = 2, n = 3, all contents, all rule numbers 0..15 and 16, 17 (rejected)
@@ -283,6 +408,17 @@ def generate(rng, tier):
     # the class as apply_rule of evolve / evolve2d
     for c in _evolutions(rng, 160 * reps):
         yield c
+    # single-digit rule numbers against every digit position; thousands of digits
+    # (the huge cases are spread among the others so that they land in different shards and run in parallel)
+    oh = list(_onehots(rng, tier))
+    hg = list(_huge(rng, tier))
+    step = max(1, len(oh) // (len(hg) + 1))
+    for i, c in enumerate(oh):
+        yield c
+        if (i + 1) % step == 0 and hg:
+            yield hg.pop()
+    for c in hg:
+        yield c
     # outside the quantified domain (still modelled): contents above k-1 / negative, k outside 2..36
     for _ in range(40 * reps):
         k = rng.choice([2, 3, 4, 10])
@@ -321,7 +457,7 @@ def run_impl(c):
     op = c.get('op', 'one')
     if op == 'seq':
         arrays = [_array(it) for it in c['seq']]
-        made = call_impl(lambda: cpl.TotalisticRule(c['k'], c['rule']))
+        made = call_impl(lambda: cpl.TotalisticRule(c['k'], _R(c)))
         if made[0] != 'ok':
             return [list(made)] * len(arrays)
         obj = made[1]                               # ONE object for the whole sequence
@@ -329,19 +465,19 @@ def run_impl(c):
                 for it, a in zip(c['seq'], arrays)]
     if op == 'evolve1':
         init = np.array([c['init']], dtype=getattr(np, c['dtype'] if c['dtype'] != 'bool' else 'bool_'))
-        return list(call_impl(lambda: cpl.evolve(init, timesteps=c['T'], apply_rule=cpl.TotalisticRule(c['k'], c['rule']),
+        return list(call_impl(lambda: cpl.evolve(init, timesteps=c['T'], apply_rule=cpl.TotalisticRule(c['k'], _R(c)),
                                                  r=c['r']).astype(np.int64).tolist()))
     if op == 'evolve2':
         init = np.array([c['init']], dtype=getattr(np, c['dtype'] if c['dtype'] != 'bool' else 'bool_'))
         return list(call_impl(lambda: cpl.evolve2d(init, timesteps=c['T'],
-                                                   apply_rule=cpl.TotalisticRule(c['k'], c['rule']), r=c['r'],
+                                                   apply_rule=cpl.TotalisticRule(c['k'], _R(c)), r=c['r'],
                                                    neighbourhood=c['nbhd']).astype(np.int64).tolist()))
     arr = _array(c)
     k = c['k'] if c.get('ktype', 'int') == 'int' else getattr(np, c['ktype'])(c['k'])
     if c['cls']:
-        r = call_impl(lambda: int(cpl.TotalisticRule(k, c['rule'])(arr, _c_arg(c), c.get('t', 1))))
+        r = call_impl(lambda: int(cpl.TotalisticRule(k, _R(c))(arr, _c_arg(c), c.get('t', 1))))
     else:
-        r = call_impl(lambda: int(cpl.totalistic_rule(arr, k, c['rule'])))
+        r = call_impl(lambda: int(cpl.totalistic_rule(arr, k, _R(c))))
     return list(r)
 
 
@@ -378,16 +514,16 @@ def _item_term(it):
 def to_coq(c, obs):
     op = c.get('op', 'one')
     if op == 'seq':
-        return '(CSeq %s %s [%s] %s)' % (cN(c['k']), cNbig(c['rule']), '; '.join(_item_term(it) for it in c['seq']),
+        return '(CSeq %s %s [%s] %s)' % (cN(c['k']), cNbig(_R(c)), '; '.join(_item_term(it) for it in c['seq']),
                                          clist(obs, lambda o: cres(o, cz)))
     if op == 'evolve1':
-        return '(CEvolve1 %s %s %s %s %s %s)' % (cN(c['k']), cNbig(c['rule']), cnat(c['r']), czlist(c['init']),
+        return '(CEvolve1 %s %s %s %s %s %s)' % (cN(c['k']), cNbig(_R(c)), cnat(c['r']), czlist(c['init']),
                                                  cnat(c['T']), cres(obs, cgrid))
     if op == 'evolve2':
-        return '(CEvolve2 %s %s %s %s %s %s %s)' % (cN(c['k']), cNbig(c['rule']), cnat(c['r']),
+        return '(CEvolve2 %s %s %s %s %s %s %s)' % (cN(c['k']), cNbig(_R(c)), cnat(c['r']),
                                                     cbool(c['nbhd'] == 'von Neumann'), cgrid(c['init']), cnat(c['T']),
                                                     cres(obs, chist))
-    return '(CTot %s %s %s %s %s)' % (cbool(c['cls']), cN(c['k']), cNbig(c['rule']), _item_term(c), cres(obs, cz))
+    return '(CTot %s %s %s %s %s)' % (cbool(c['cls']), cN(c['k']), cNbig(_R(c)), _item_term(c), cres(obs, cz))
 
 
 def _cells_of(c):
@@ -445,7 +581,7 @@ def oracle(c, obs):
     if not _in_domain(c):
         return None
     op = c.get('op', 'one')
-    k, rule = c['k'], c['rule']
+    k, rule = c['k'], _R(c)
     if op == 'seq':
         if len(obs) != len(c['seq']):
             return 'number of answers differs from the number of calls'
@@ -513,8 +649,8 @@ def shrink(c):
         W_old = n * (k - 1) + 1
         # keep the rule number on the same side of the new bound
         new_top = k ** (3 * (k - 1) + 1)
-        rule = c['rule'] % new_top if c['rule'] < k ** W_old else new_top + c['rule'] % new_top
-        yield dict(c, shape=['1d', 3], cells=c['cells'][:3], rule=rule, c=0)
+        rule = _R(c) % new_top if _R(c) < k ** W_old else new_top + _R(c) % new_top
+        yield dict(c, shape=['1d', 3], cells=c['cells'][:3], rule=_store_rule(rule), c=0)
     if any(c['cells']):
         yield dict(c, cells=[0] * len(c['cells']))
         cells = list(c['cells'])
